@@ -20,6 +20,7 @@ type StructOpt struct {
 	EnumFn     func(env *progen.Env) []*progen.Type // extra types computed from the environment
 	EnumChunks bool                                 // every other subject takes its types from the bounded-exhaustive enumeration (fixed environment)
 	TopShapes  bool                                 // wrap most drawn types in a top-level pointer / slice / map (DeepCopy's argument forms)
+	Carriers   bool                                 // some of the drawn types are also used as the fields of carrier structs (field paths of the generators)
 }
 
 // DrawStructural draws an environment and NTypes distinct argument types and emits the wrappers
@@ -78,6 +79,15 @@ func DrawStructural(rt *rapid.T, o StructOpt) *Subject {
 		seen[k] = true
 		types = append(types, t)
 	}
+	if o.Carriers && len(types) >= 3 {
+		k := rapid.IntRange(0, len(types)-3).Draw(rt, "carrier-start")
+		for j := 0; j < 2 && k+3*j+3 <= len(types); j++ {
+			w := Carrier(env, fmt.Sprintf("W%d", j), types[k+3*j:k+3*j+3]...)
+			if o.TypeOK == nil || o.TypeOK(w) {
+				o.Enumerated = append(append([]*progen.Type{}, o.Enumerated...), w)
+			}
+		}
+	}
 	if o.EnumFn != nil {
 		o.Enumerated = append(append([]*progen.Type{}, o.Enumerated...), o.EnumFn(env)...)
 	}
@@ -103,6 +113,16 @@ func DrawStructural(rt *rapid.T, o StructOpt) *Subject {
 		AddRoles(p, used, e, t, id, o.Roles)
 	}
 	return s
+}
+
+// Carrier declares "type <name> struct { F0 T0; F1 T1; ... }" in the subject package and returns *<name>.
+func Carrier(env *progen.Env, name string, ts ...*progen.Type) *progen.Type {
+	d := &progen.Decl{Name: name, IsStruct: true}
+	for i, t := range ts {
+		d.Fields = append(d.Fields, progen.Field{Name: fmt.Sprintf("F%d", i), Type: t})
+	}
+	env.Structs = append(env.Structs, d)
+	return progen.PtrTo(progen.NamedT(d))
 }
 
 func addCall(p *progen.Prog, used progen.Used, e *Entry, role string, c *progen.Call, key string) {
@@ -274,6 +294,33 @@ func drawEnumerated(rt *rapid.T, o StructOpt) *Subject {
 		n = 14
 	}
 	start := rapid.IntRange(0, len(all)-1).Draw(rt, "enum-start")
+	// one chunk in three is not passed as arguments but as the fields of carrier structs: generators
+	// print a type differently as an argument and as a field (genStatement vs genField paths)
+	if rapid.IntRange(0, 2).Draw(rt, "enum-carriers") == 0 {
+		var fields []*progen.Type
+		seenF := map[string]bool{}
+		for i := 0; len(fields) < n && i < len(all); i++ {
+			t := all[(start+i)%len(all)]
+			if k := progen.AssignKey(t); !seenF[k] && (o.TypeOK == nil || o.TypeOK(t)) {
+				seenF[k] = true
+				fields = append(fields, t)
+			}
+		}
+		var ws []*progen.Type
+		for j := 0; j*3 < len(fields); j++ {
+			hi := j*3 + 3
+			if hi > len(fields) {
+				hi = len(fields)
+			}
+			w := Carrier(env, fmt.Sprintf("W%d", j), fields[j*3:hi]...)
+			if o.TypeOK == nil || o.TypeOK(w) {
+				ws = append(ws, w)
+			}
+		}
+		if len(ws) > 0 {
+			all, start, n = ws, 0, len(ws)
+		}
+	}
 	p := progen.NewProg(env)
 	s := &Subject{Prog: p}
 	used := progen.Used{}
@@ -282,7 +329,9 @@ func drawEnumerated(rt *rapid.T, o StructOpt) *Subject {
 	count := 0
 	for i := 0; count < n && i < len(all); i++ {
 		t := all[(start+i)%len(all)]
-		if o.TopShapes {
+		if t.Kind == progen.Ptr && t.Elem.Kind == progen.Named && strings.HasPrefix(t.Elem.Decl.Name, "W") {
+			// carriers are passed as they are
+		} else if o.TopShapes {
 			u := t.Under()
 			if u.Kind != progen.Ptr && u.Kind != progen.Slice && u.Kind != progen.Map {
 				t = progen.PtrTo(t)
